@@ -311,6 +311,17 @@ class Unit:
     def __hash__(self):
         return int(self.registry.unit_system_id, 16) ^ hash(self.expr)
 
+    def __setstate__(self, state):
+        # Unpickling a bare Unit: restore the slots, then swap the unpickled
+        # dimension symbols for the library's singletons (the angle,
+        # temperature and logarithmic guards test identity).
+        from unyt.unit_registry import _intern_dimensions
+
+        slots = state[1] if isinstance(state, tuple) else state
+        for name, value in (slots or {}).items():
+            setattr(self, name, value)
+        self.dimensions = _intern_dimensions(self.dimensions)
+
     # end sympy conventions
 
     def __repr__(self):
